@@ -103,20 +103,22 @@ where
                 if fraction + delta > F::ONE {
                     // We need to back trace already written digits in case of carry-over.
                     loop {
-                        fraction_cursor -= 1;
-                        if fraction_cursor == initial_cursor - 1 {
+                        if fraction_cursor == initial_cursor {
                             // Carry over to the integer part.
                             integer += F::ONE;
                             break;
                         }
+                        fraction_cursor -= 1;
                         // Reconstruct digit.
                         let c = buffer[fraction_cursor];
                         if let Some(digit) = char_to_digit_const(c, format.radix()) {
                             let idx = digit + 1;
-                            let c = digit_to_char_const(idx, format.radix());
-                            buffer[fraction_cursor] = c;
-                            fraction_cursor += 1;
-                            break;
+                            if idx < format.radix() {
+                                let c = digit_to_char_const(idx, format.radix());
+                                buffer[fraction_cursor] = c;
+                                fraction_cursor += 1;
+                                break;
+                            }
                         }
                     }
                     break;
